@@ -206,6 +206,38 @@ class Normalise(ast.NodeTransformer):
             n.test, n.body, n.orelse = t, n.orelse, n.body
         return n
 
+    # N5  tmp = E; return tmp   ->  return E     (tmp bound once and read once in the whole function)
+    def _fold_return_temps(self, f):
+        counts: dict = {}
+        for x in ast.walk(f):
+            if isinstance(x, ast.Name):
+                counts[x.id] = counts.get(x.id, 0) + 1
+        for node in ast.walk(f):
+            for field in ("body", "orelse", "finalbody"):
+                b = getattr(node, field, None)
+                if not (isinstance(b, list) and len(b) >= 2 and isinstance(b[0], ast.stmt)):
+                    continue
+                out, i = [], 0
+                while i < len(b):
+                    st = b[i]
+                    nx = b[i + 1] if i + 1 < len(b) else None
+                    if isinstance(st, ast.Assign) and len(st.targets) == 1 and isinstance(st.targets[0], ast.Name) and isinstance(nx, ast.Return) and isinstance(nx.value, ast.Name) \
+                            and nx.value.id == st.targets[0].id and counts.get(nx.value.id) == 2:
+                        out.append(ast.copy_location(ast.Return(value=st.value), st))
+                        i += 2
+                        continue
+                    out.append(st)
+                    i += 1
+                setattr(node, field, out)
+
+    def visit_FunctionDef(self, n):
+        self.generic_visit(n)
+        if os.environ.get("SA_N5", "0") == "1":
+            self._fold_return_temps(n)
+        return n
+
+    visit_AsyncFunctionDef = visit_FunctionDef
+
 
 class Module:
     def __init__(self, repo: "Repo", relpath: str, text: str):
